@@ -201,6 +201,18 @@ def rename_fields(t, mapping: Dict[str, str]):
     return map_term(t, lambda x: ("field", mapping.get(x[1], x[1])) if x[0] == "field" else x)
 
 
+def decouple_ints(t) -> tuple:
+    """Every integer literal replaced by a distinct sentinel: the same filter without value coincidences."""
+    n = [0]
+
+    def f(x):
+        if x[0] == "int":
+            n[0] += 1
+            return ("int", SENTINEL_BASE + 500 + n[0])
+        return x
+    return map_term(t, f)
+
+
 def int_slots(t) -> int:
     return sum(1 for x in subterms(t) if x[0] == "int" and x[1] == "?")
 
@@ -379,6 +391,7 @@ class Cfg:
         if self.null_left:
             for ty in ("int", "str"):
                 add("bool", f"nullleft:eq:{ty}", (ty,), lambda a: ("cmp", "eq", ("null",), a[0]))
+                add("bool", f"nullleft:ne:{ty}", (ty,), lambda a: ("cmp", "ne", ("null",), a[0]))
         add("bool", "in:int", ("int", "int!", "int!"), lambda a: ("in", a[0], [a[1], a[2]]))
         add("bool", "in:str", ("str", "str!", "str!"), lambda a: ("in", a[0], [a[1], a[2]]))
         add("bool", "and", ("bool", "bool"), lambda a: ("and", a[0], a[1]))
@@ -563,9 +576,51 @@ def special_families(extended: bool = False) -> List[Tuple[str, tuple]]:
         out.append(("null", ("cmp", "eq", x, ("null",))))
         out.append(("null", ("cmp", "ne", x, ("null",))))
         out.append(("null", ("cmp", "eq", ("null",), x)))
+        out.append(("null", ("cmp", "ne", ("null",), x)))
         out.append(("null", ("not", ("cmp", "eq", x, ("null",)))))
+        out.append(("null", ("not", ("cmp", "ne", ("null",), x))))
     out.append(("null", ("or", ("cmp", "eq", a, ("null",)), ("and", ("cmp", "ne", b, ("null",)), ("cmp", "eq", a, k)))))
     out.append(("null", ("and", ("or", ("cmp", "eq", a, ("null",)), ("cmp", "ne", b, ("null",))), ("cmp", "eq", a, k))))
+    # `not` directly over every comparator: field/literal, literal/field, field/field (boundary rows decide)
+    for op in CMP:
+        out.append(("notcmp", ("not", ("cmp", op, a, k))))
+        out.append(("notcmp", ("not", ("cmp", op, k, a))))
+        out.append(("notcmp", ("not", ("cmp", op, a, b))))
+        out.append(("notcmp", ("not", ("cmp", op, s, ("str", "a")))))
+        out.append(("notcmp", ("not", ("cmp", op, s, u))))
+        out.append(("notcmp", ("and", ("not", ("cmp", op, a, k)), ("cmp", "ne", b, k))))
+    out.append(("notcmp", ("not", ("in", a, [k, b]))))
+    out.append(("notcmp", ("not", ("cmp", "eq", f, ("bool", True)))))
+    out.append(("notcmp", ("not", ("not", ("cmp", "lt", a, k)))))
+    # double negation and negation of a negative literal (`--` starts an SQL comment)
+    for x in (("neg", ("neg", a)), ("neg", ("int", -3)), ("neg", ("neg", ("int", 3))), ("neg", ("arith", "sub", ("neg", a), b))):
+        out.append(("uminus", ("cmp", "eq", x, b)))
+        out.append(("uminus", ("cmp", "eq", a, x)))
+        out.append(("uminus", ("cmp", "eq", ("arith", "sub", b, x), a)))
+    # CONCRETE small literals next to boolean literals / equal-valued literals (1 == True, 0 == False in Python):
+    # the sentinel abstraction of integer literals would hide a translator that confuses equal-valued literals
+    I = lambda v: ("int", v)
+    T, Fa = ("bool", True), ("bool", False)
+    for bl, one in ((T, 1), (Fa, 0)):
+        out.append(("coincide", ("and", ("cmp", "eq", f, bl), ("cmp", "eq", ("arith", "add", a, I(one)), I(2)))))
+        out.append(("coincide", ("and", ("cmp", "eq", ("arith", "add", a, I(one)), I(2)), ("cmp", "eq", f, bl))))
+        out.append(("coincide", ("or", ("cmp", "ne", f, bl), ("cmp", "gt", ("arith", "mul", a, I(one)), b))))
+        out.append(("coincide", ("and", ("cmp", "eq", f, bl), ("cmp", "eq", a, I(one)))))
+        out.append(("coincide", ("and", ("cmp", "eq", ("call", "contains", [s, ("str", "a")]), bl), ("cmp", "eq", ("arith", "sub", a, I(one)), b))))
+        out.append(("coincide", ("cmp", "eq", ("cmp", "eq", a, I(one)), bl)))
+        out.append(("coincide", ("and", ("in", a, [I(one), I(2)]), ("cmp", "ne", f, bl))))
+        out.append(("coincide", ("and", ("cmp", "eq", ("call", "indexof", [s, ("str", "a")]), I(one)), ("cmp", "eq", f, bl))))
+        out.append(("coincide", ("and", ("cmp", "eq", ("call", "substring", [s, I(one)]), u), ("cmp", "eq", f, bl))))
+        out.append(("coincide", ("and", ("cmp", "eq", ("arith", "div", a, I(2)), I(one)), ("cmp", "eq", f, bl))))
+        out.append(("coincide", ("and", ("cmp", "eq", ("arith", "mod", a, I(2)), I(one)), ("cmp", "eq", f, bl))))
+        out.append(("coincide", ("or", ("cmp", "eq", f, bl), ("not", ("cmp", "le", a, I(one))))))
+    for v in (0, 1, 2, -1):
+        out.append(("coincide", ("and", ("cmp", "eq", a, I(v)), ("cmp", "eq", ("arith", "add", b, I(v)), I(v)))))
+        out.append(("coincide", ("or", ("cmp", "lt", a, I(v)), ("cmp", "eq", ("call", "length", [s]), I(v)))))
+        out.append(("coincide", ("cmp", "eq", ("arith", "sub", a, I(v)), ("arith", "mul", b, I(v)))))
+        out.append(("coincide", ("and", ("in", a, [I(v), I(v + 1)]), ("cmp", "ne", b, I(v + 1)))))
+    out.append(("coincide", ("and", ("cmp", "eq", s, ("str", "a")), ("call", "contains", [u, ("str", "a")]))))
+    out.append(("coincide", ("or", ("cmp", "eq", s, ("str", "")), ("cmp", "eq", ("call", "concat", [u, ("str", "")]), s))))
     # index shifts
     for x in (k, a, ("arith", "add", a, k), ("arith", "mul", a, k), ("call", "indexof", [s, u])):
         out.append(("index", ("cmp", "eq", ("call", "substring", [s, x]), u)))
